@@ -53,7 +53,7 @@ def getOptNat (j : Json) (k : String) : Except String (Option Nat) :=
   | .ok v => do pure (some (← v.getNat?))
   | .error _ => pure none
 
-def evToJson : Replay.EvR → Json
+def evToJson : SubjReplay.EvR → Json
   | .call k now nobs => Json.arr #[.str "call", .num (JsonNumber.fromNat k), .num (JsonNumber.fromNat now), .num (JsonNumber.fromNat nobs)]
   | .sub j now => Json.arr #[.str "sub", .num (JsonNumber.fromNat j), .num (JsonNumber.fromNat now)]
   | .unsub j => Json.arr #[.str "unsub", .num (JsonNumber.fromNat j)]
@@ -95,8 +95,8 @@ def handle (op : String) (j : Json) : Except String Json := do
     let buffer ← getOptNat j "buffer"
     let window ← getOptNat j "window"
     let c0 := cfgOf Kind.subject os
-    let cfg : Replay.Cfg := { bufferSize := buffer, window := window, hasErr := c0.hasErr, react := c0.react }
-    let st := Replay.run cfg 1000000 calls
+    let cfg : SubjReplay.Cfg := { bufferSize := buffer, window := window, hasErr := c0.hasErr, react := c0.react }
+    let st := SubjReplay.run cfg 1000000 calls
     let logs := (List.range os.length).map fun i =>
       Json.arr (((st.log i).map fun (t, n) => Json.arr #[.num (JsonNumber.fromNat t), notifToJson n]).toArray)
     pure (Json.mkObj [("logs", Json.arr logs.toArray),
@@ -104,7 +104,7 @@ def handle (op : String) (j : Json) : Except String Json := do
                       ("raised", Json.arr (st.raised.map fun (k, e) => Json.arr #[.num (JsonNumber.fromNat k), .str e]).toArray),
                       ("crashed", optErr st.crashed),
                       ("order", Json.arr (st.evs.map evToJson).toArray),
-                      ("idle", .bool (Replay.idle st))])
+                      ("idle", .bool (SubjReplay.idle st))])
   | _ => throw s!"unknown op {op}"
 
 end DrvSubj
